@@ -191,6 +191,34 @@ def generate_meta(repo):
                f'its shape is `dftShapeOut`, its ptype `_propagate_ptype(wavefront.ptype)` (Gen.codePropagate, C08) -/\n'
                f'def dftOutMeta {R} (wavefront_pixelscale_0 wavefront_pixelscale_1 pixelscale_0 pixelscale_1 wavefront_wavelength wavefront_focal_length oversample : R) : R × (R × R) × R :=\n'
                f'  ({_rx(kw["wavelength"], envd)}, {_pair(_rx(kw["pixelscale"], envd))}, {_rx(kw["focal_length"], envd)})\n')
+    # ---- the per-field shift: which wavefront attributes / call arguments feed Field.shift, and its split into integer and sub-pixel part
+    loops = [s for s in fd.body if isinstance(s, ast.For) and ast.unparse(s.target) == 'field']
+    if len(loops) != 1: raise Refuse('propagate_dft: field loop not found')
+    lb = loops[0].body
+    if len(lb) < 3 or [ast.unparse(s.targets[0]) if isinstance(s, ast.Assign) else None for s in lb[:3]] != ['shift', 'fix_shift', 'subpx_shift']:
+        raise Refuse('propagate_dft: the field loop no longer starts with shift / fix_shift / subpx_shift')
+    sc = lb[0].value
+    if not (isinstance(sc, ast.Call) and ast.unparse(sc.func) == 'field.shift' and not sc.args): raise Refuse('propagate_dft: shift is not field.shift(keywords)')
+    skw = {k.arg: ast.unparse(k.value) for k in sc.keywords}
+    if set(skw) != {'z', 'wavelength', 'pixelscale', 'oversample', 'indexing'} or skw['indexing'] not in ("'ij'", "'xy'"): raise Refuse(f'propagate_dft: field.shift keywords changed: {skw}')
+    senv = {'wavefront.focal_length': 'wavefront_focal_length', 'wavefront.wavelength': 'wavefront_wavelength', 'du': ['pixelscale_0', 'pixelscale_1'], 'z': envd['z'],
+            'oversample': 'oversample', 'pixelscale': ['pixelscale_0', 'pixelscale_1']}
+    sargs = {k.arg: _rx(k.value, senv) for k in sc.keywords if k.arg != 'indexing'}
+    ij_ = 'true' if skw['indexing'] == "'ij'" else 'false'
+    out.append(f'/-- translated from `propagate.py:propagate_dft` (line {sc.lineno}): the arguments `(z, wavelength, pixelscale, oversample)` of `field.shift(...)` in terms of the\n'
+               f'wavefront attributes and call arguments, and whether `indexing` is `ij` (row, column) -/\n'
+               f'def dftShiftArgs {{R : Type}} (wavefront_focal_length wavefront_wavelength pixelscale_0 pixelscale_1 oversample : R) : (R × R × (R × R) × R) × Bool :=\n'
+               f'  (({sargs["z"]}, {sargs["wavelength"]}, {_pair(sargs["pixelscale"])}, {sargs["oversample"]}), {ij_})\n')
+    fx = lb[1].value
+    itbl = {'np.fix': 'fix', 'np.trunc': 'fix', 'np.floor': 'floor', 'np.round': 'round', 'np.rint': 'round', 'np.ceil': 'ceil'}
+    if not (isinstance(fx, ast.Call) and ast.unparse(fx.func) in itbl and [ast.unparse(a) for a in fx.args] == ['shift'] and not fx.keywords):
+        raise Refuse('propagate_dft: fix_shift is not an integer-valued rounding of shift: ' + ast.unparse(fx)[:60])
+    fxn = itbl[ast.unparse(fx.func)]
+    sub = [_rx(lb[2].value, {'shift': ['shift_0', 'shift_1'], 'fix_shift': [f'({fxn} shift_0)', f'({fxn} shift_1)']})][0]
+    out.append(f'/-- translated from `propagate.py:propagate_dft` (line {lb[1].lineno}): `(fix_shift, subpx_shift)` from a field\'s `shift`; `fix` / `floor` / `round` / `ceil` =\n'
+               f'`np.fix` (`np.trunc`) / `np.floor` / `np.round` / `np.ceil` as functions R → R -/\n'
+               f'def dftShiftSplit {{R : Type}} [Add R] [Sub R] [Mul R] [Div R] (fix floor round ceil : R → R) (shift_0 shift_1 : R) : (R × R) × (R × R) :=\n'
+               f'  ((({fxn} shift_0), ({fxn} shift_1)), {_pair(sub)})\n')
     # ---- order of the entry guards: the plane-type check (`ptype_out = _propagate_ptype(...)`, TypeError) and the mask-shape guard
     # (`raise ValueError` under `if mask is not None`) as positions among the top-level statements of propagate_dft
     top = [n for n in fd.body if not (isinstance(n, ast.Expr) and isinstance(n.value, ast.Constant))]
@@ -321,9 +349,28 @@ def generate_meta(repo):
             'fft_shape': ['fft_shape_0', 'fft_shape_1']}
     alpha_call(ff, envf, 'fftAlphaCall', 'the `alpha` whose reciprocal is rounded to the FFT grid (arguments as written at the call site)',
                '(dx_0 dx_1 du_0 du_1 z wavelength oversample : R)')
-    if ast.unparse(_assign(ff, 'fft_shape')) != 'np.round(np.reciprocal(alpha)).astype(int)': raise Refuse('_fft_shape: fft_shape = round(1/alpha) changed')
+    # fft_shape: a composition of element-wise NumPy functions applied to `alpha`, ending in `.astype(int)`; translated over abstract
+    # operations (which rounding, reciprocal or not) — the theorem C09.fft_shape_is_generated fixes it to round-half-even of 1/alpha
+    def unary(e, arg, to_int):
+        if isinstance(e, ast.Name) and e.id == 'alpha': return arg
+        if isinstance(e, ast.Call) and len(e.args) == 1 and not e.keywords:
+            f = ast.unparse(e.func)
+            tbl = {'np.reciprocal': 'recip'}
+            itbl = {'np.round': 'round', 'np.rint': 'round', 'np.floor': 'floor', 'np.ceil': 'ceil'}
+            if f in tbl: return f'({tbl[f]} {unary(e.args[0], arg, False)})'
+            if f in itbl and to_int: return f'({itbl[f]} {unary(e.args[0], arg, False)})'
+        raise Refuse('_fft_shape: fft_shape expression ' + ast.unparse(e)[:60])
+    fsx = _assign(ff, 'fft_shape')
+    if not (isinstance(fsx, ast.Call) and isinstance(fsx.func, ast.Attribute) and fsx.func.attr == 'astype' and [ast.unparse(a) for a in fsx.args] == ['int'] and not fsx.keywords):
+        raise Refuse('_fft_shape: fft_shape is no longer <expr>.astype(int)')
+    out.append(f'/-- translated from `propagate.py:_fft_shape` (line {fsx.lineno}): `fft_shape` from `alpha`, per axis; `round` / `floor` / `ceil` = `np.round` (`np.rint`) /\n'
+               f'`np.floor` / `np.ceil` followed by `.astype(int)`, `recip` = `np.reciprocal` -/\n'
+               f'def fftShapeOfAlpha {{R : Type}} (round floor ceil : R → Int) (recip : R → R) (alpha_0 alpha_1 : R) : Int × Int :=\n'
+               f'  ({unary(fsx.func.value, "alpha_0", True)}, {unary(fsx.func.value, "alpha_1", True)})\n')
     pw = _assign(ff, 'prop_wavelength')
-    if not (isinstance(pw, ast.Call) and ast.unparse(pw.func) == 'np.min' and len(pw.args) == 1): raise Refuse('_fft_shape: prop_wavelength is not np.min(...)')
+    if not (isinstance(pw, ast.Call) and ast.unparse(pw.func) in ('np.min', 'np.max', 'np.mean') and len(pw.args) == 1 and not pw.keywords): raise Refuse('_fft_shape: prop_wavelength is not a reduction np.min/np.max/np.mean(...)')
+    out.append(f'/-- translated from `propagate.py:_fft_shape` (line {pw.lineno}): how the two per-axis wavelengths (`fftWavelengths`) are reduced to the reported one -/\n'
+               f'def fftWavelengthReduce {{R : Type}} (min max mean : R → R → R) (w_0 w_1 : R) : R :=\n  {ast.unparse(pw.func).split(".")[1]} w_0 w_1\n')
     out.append(f'/-- translated from `propagate.py:_fft_shape` (line {pw.lineno}): the per-axis wavelengths whose minimum is reported -/\n'
                f'def fftWavelengths {R} (fft_shape_0 fft_shape_1 dx_0 dx_1 du_0 du_1 z oversample : R) : R × R :=\n  {_pair(_rx(pw.args[0], envf))}\n')
     ret = [n for n in ff.body if isinstance(n, ast.Return)]
